@@ -19,6 +19,7 @@ const pkgPGPatcher = "pkg/podgroupcontroller/controllers/patcher"
 const pkgQueueRes = "pkg/queuecontroller/controllers/resource_updater"
 
 func runC20(c *Ctx) {
+	runC20DesiredOnLive(c)
 	runC20Preemptibility(c)
 	p, fx := c.P, c.Fx
 	// ---- O1: the recomputed status fields are assigned on every path
@@ -652,4 +653,102 @@ func runC20Preemptibility(c *Ctx) {
 		}
 		c.Floor("O10", "PROV preemptibility computations", calc, 1)
 	}
+}
+
+// C20-O11 (MUSTDEF): desired objects that are built ON TOP of the live object. The operator fetches the current
+// object (ObjectForKAIConfig) and overwrites the fields it owns; Deploy then compares desired with current. A field
+// taken from the Config must therefore be assigned on EVERY successful path: a field that is assigned only when the
+// configured value is non-empty keeps the live value when the setting is removed — desired equals current, nothing is
+// updated, and the cluster never converges to the Config (a removed nodeSelector stays for ever).
+func runC20DesiredOnLive(c *Ctx) {
+	p := c.P
+	n := 0
+	for _, fn := range p.FuncsIn("pkg/operator/operands") {
+		if isTestdataOrMock(fn) || fn.Blocks == nil {
+			continue
+		}
+		var live []ssa.Value
+		for _, in := range instrsIn(fn, func(in ssa.Instruction) bool {
+			cc, ok := in.(*ssa.Call)
+			return ok && calleeOf(cc) != nil && (calleeOf(cc).Name() == "ObjectForKAIConfig" || calleeOf(cc).Name() == "DeploymentForKAIConfig")
+		}) {
+			live = append(live, in.(ssa.Value))
+		}
+		if len(live) == 0 {
+			continue
+		}
+		isLiveRooted := func(t *Term) bool {
+			return t.contains(func(x *Term) bool {
+				if x.V == nil {
+					return false
+				}
+				for _, l := range live {
+					if x.V == l {
+						return true
+					}
+					if ex, ok := x.V.(*ssa.Extract); ok && ex.Tuple == l {
+						return true
+					}
+				}
+				return false
+			})
+		}
+		fromConfig := func(v ssa.Value) bool {
+			for _, src := range valueSources(v, 3) {
+				t := termOf(src)
+				if t.contains(func(x *Term) bool {
+					return x.Op == "param" && x.V != nil && (strings.HasSuffix(typeKey(x.V.Type()), "kai/v1.Config") || strings.Contains(typeKey(x.V.Type()), "kai/v1/"))
+				}) {
+					return true
+				}
+			}
+			return false
+		}
+		byKey := map[string][]ssa.Instruction{}
+		for _, in := range instrsIn(fn, func(in ssa.Instruction) bool { _, ok := in.(*ssa.Store); return ok }) {
+			st := in.(*ssa.Store)
+			at := termOf(st.Addr)
+			if at.Op != "field" || !isLiveRooted(at) || !fromConfig(st.Val) {
+				continue
+			}
+			byKey[at.String()] = append(byKey[at.String()], in)
+		}
+		var keys []string
+		for k := range byKey {
+			keys = append(keys, k)
+		}
+		sort.Strings(keys)
+		for _, k := range keys {
+			stores := byKey[k]
+			n++
+			isStore := func(x ssa.Instruction) bool {
+				for _, s := range stores {
+					if s == x {
+						return true
+					}
+				}
+				return false
+			}
+			okRet := func(x ssa.Instruction) bool {
+				r, ok := x.(*ssa.Return)
+				if !ok {
+					return false
+				}
+				if len(r.Results) == 0 {
+					return true
+				}
+				last := r.Results[len(r.Results)-1]
+				if types.Identical(last.Type(), types.Universe.Lookup("error").Type()) {
+					k, isK := last.(*ssa.Const)
+					return isK && k.Value == nil
+				}
+				return true
+			}
+			_, path, found := reachAvoiding([]cfgPos{entryPos(fn)}, okRet, isStore, nil)
+			fld := k[strings.LastIndex(k, ".")+1:]
+			c.Check(!found, "O11", "MUSTDEF", funcKey(fn)+": "+fld+" of the desired object is assigned from the Config on every path", instrPos(stores[0]), "assigned unconditionally",
+				"the desired object is built on top of the live one, and "+fld+" is taken from the Config only on some paths ("+pathStr(path)+"): when the setting is removed the live value is inherited, desired equals current and the operator never removes it")
+		}
+	}
+	c.Floor("O11", "MUSTDEF config-derived fields of desired-on-live objects", n, 3)
 }
